@@ -4,7 +4,7 @@ from __future__ import annotations
 import os, sys, json, copy, tempfile, shutil, itertools
 from pyvc.api import *
 
-RULE = "title: t\nlogsource:\n  category: c\ndetection:\n  s:\n    f|expand: '%ph%'\n  condition: s\n"
+RULE = "title: t\ntags:\n  - attack.t1059\n  - attack.g0001\nlogsource:\n  category: c\ndetection:\n  s:\n    f|expand: '%ph%'\n  condition: s\n"
 CAPS = {"allow_external_sources": True, "allow_template_vars": True, "vars_allowed_paths": None}
 
 
@@ -44,7 +44,7 @@ class C16Bounded(Bounded):
 
         def hook(ev, args):
             if ev in ("subprocess.Popen", "os.system", "os.exec", "os.posix_spawn", "socket.connect", "socket.getaddrinfo", "socket.gethostbyname", "socket.gethostbyaddr", "socket.sendto", "socket.bind", "urllib.Request",
-                      "http.client.connect") or (ev == "open" and args and str(args[0]) == secret):
+                      "http.client.connect") or (ev == "open" and args and (str(args[0]) == secret or str(args[0]).endswith("secretmod.jq"))):
                 events.append((ev, str(args)[:80]))
         sys.addaudithook(hook)
         ext_items = [{"type": "command_placeholders", "cmd": f"touch {marker}_cmd", "include": ["ph"]},
@@ -66,6 +66,11 @@ class C16Bounded(Bounded):
                     sweep.append(dict(it, **{f.name: secret}))
                 if "int" in t or "float" in t:
                     sweep.append(dict(it, **{f.name: 0}))
+        # expressions a parameter may carry can name files themselves (a jq module directive): nothing is opened for them either
+        open(os.path.join(root, "secretmod.jq"), "w").write("def f: .;\n")
+        for it in ext_items[:3]:
+            sweep.append(dict(it, format="json", jq_expression='include "secretmod" {search: "' + root + '"}; .[]'))
+            sweep.append(dict(it, format="json", jq_expression='import "secretmod" as m {search: "' + root + '"}; .[]'))
         docs = []
         for it in ext_items:
             docs.append({"transformations": [dict(it)]})
@@ -88,6 +93,16 @@ class C16Bounded(Bounded):
             base = {"transformations": ph["transformations"] + [dict(t_item, include=["nothing"])], "vars": {"ph": "v"}}
             docs.append(dict(base, postprocessing=[{"type": "template", "template": esc + " {{ query }}"}]))
             docs.append(dict(base, finalizers=[{"type": "template", "template": esc + " {{ queries }}"}]))
+        # conditions of items are evaluated on the rule and the pipeline only - with an EMPTY data cache too, no item condition may go and
+        # fetch reference data (tag conditions named like ATT&CK tactics / techniques, log source and attribute conditions)
+        try:
+            import sigma.data.mitre_attack as _ma, sigma.data.mitre_d3fend as _md
+            for _m in (_ma, _md):
+                _m.set_cache_dir(os.path.join(root, "empty_cache_" + _m.__name__.rsplit(".", 1)[-1]))
+        except Exception:
+            pass
+        for cond_ in ({"type": "tag", "tag": "attack.execution"}, {"type": "tag", "tag": "attack.t1059"}, {"type": "tag", "tag": "attack.defense-evasion"}, {"type": "rule_attribute", "attribute": "title", "value": "t", "op": "eq"}):
+            docs.append({"transformations": [{"type": "value_placeholders", "include": ["ph"], "rule_conditions": [cond_]}, {"type": "field_name_prefix", "prefix": "x.", "rule_conditions": [cond_], "rule_cond_not": True}], "vars": {"ph": "v"}})
         masks = [0, 1, 2, 4, 8, 6, 14, 31] if tier == "quick" else list(range(32))
         ev = nontriv = 0
         fails, samples = [], []
@@ -169,6 +184,19 @@ class C16Bounded(Bounded):
                 bad = list(events) + [m for m in ("_cmd", "_vars", "_sibling") if os.path.exists(marker + m)]
                 if "TOPSECRET" in outcome:
                     bad.append("secret file content in query")
+                if "secretmod" in str(it.get("jq_expression", "")):
+                    # a library that opens files outside Python's audit hook: the outcome must not depend on what the named file contains
+                    open(os.path.join(root, "secretmod.jq"), "w").write("this is not a jq module (((\n")
+                    try:
+                        out2 = TextQueryTestBackend(ProcessingPipeline.from_dict(copy.deepcopy(dd))).convert(SigmaCollection.from_yaml(RULE))
+                        outcome2 = f"converted: {out2}"
+                    except SigmaError as e:
+                        outcome2 = type(e).__name__
+                    except Exception as e:
+                        outcome2 = "non-sigma " + type(e).__name__
+                    open(os.path.join(root, "secretmod.jq"), "w").write("def f: .;\n")
+                    if outcome2 != outcome:
+                        bad.append(f"the outcome depends on the content of the file the expression names: {outcome} with a valid module, {outcome2} with a broken one")
                 if bad:
                     extra = {k: v for k, v in it.items() if k not in ("type", "include", "cmd", "path", "url")}
                     fails.append({"text": f"{it['type']} item{' inside nest' if nested else ''} with the parameter {extra} loaded and used with default arguments caused {bad}; outcome {outcome}", "input": [it["type"], nested, sorted(extra)]})
